@@ -120,6 +120,15 @@ def make_backend(cfg):
     return real_backend(b)
 
 
+def apply_temperature(m, tspec):
+    if tspec['kind'] == 'const':
+        m.setTemperature(tspec['T'])
+    elif tspec['kind'] == 'array':
+        m.setTemperature(list(tspec['times']), list(tspec['temps']))
+    else:
+        m.setTemperature(temperature_callable(tspec))
+
+
 def build_model(cfg, faults=(), allow_first=False, keep_log=True):
     inner = make_backend(cfg)
     backend = stubs.FaultyBackend(inner, faults=faults, allow_first=allow_first, keep_log=keep_log)
@@ -213,6 +222,12 @@ def run_ops(model, ops, observer, F=None, on_call_end=None, prefix='C03'):
     reported as <prefix>.exception unless they are the harness' own StepCap."""
     info = {'calls': [], 'capped': False, 'exception': None}
     for ci, op in enumerate(ops):
+        if op['op'] == 'set_temperature':
+            # the schedule is replaced between two solve calls through the public setter
+            apply_temperature(model, op['spec'])
+            if on_call_end is not None:
+                on_call_end(ci, {'ci': ci, 'op': 'set_temperature', 'spec': op['spec']})
+            continue
         if op['op'] != 'solve':
             continue
         t_start = float(model.pData.time[model.pData.n])
